@@ -391,8 +391,15 @@ func (C20) Run(t *testing.T, plan *kernel.Plan, keepLog bool) *kernel.Result {
 					}
 					alt := append([]string{}, lines...)
 					alt[i], alt[j] = alt[j], alt[i]
+					// "no later than at the next protected entry after the change": two chains that begin with
+					// textually identical entries (same text, same second) have interchangeable second entries,
+					// and the swap then shows at the entry after the first swapped one
 					lo := min(i, j)
-					if !expectFail(fmt.Sprintf("swap-across-chains lines %d,%d", i, j), alt, lo) {
+					latest := nextProtected(lo+1, alt)
+					if latest < 0 {
+						continue
+					}
+					if !expectFail(fmt.Sprintf("swap-across-chains lines %d,%d", i, j), alt, latest) {
 						return
 					}
 				}
